@@ -281,9 +281,13 @@ def fam_hier2d(tier):
                 continue
             for bt in ('h-spline', 'th-spline'):
                 for p in range(1, pmax + 1):
+                    if p == 3 and len(S) == 2 and len(S[1]) == 2:
+                        continue
                     yield case(topo, bt, degree=p)
             for bt in ('h-std', 'th-std'):
                 for p in range(2, pmax + 1):
+                    if p == 3 and len(S) == 2:
+                        continue
                     yield case(topo, bt, degree=p)
             if len(S) == 1:
                 yield case(topo, 'discont', degree=1)
